@@ -93,6 +93,11 @@ def run(prog: Program, rep: Report, tier: str):
     rule_helpers(prog, rep)
     rule_fit(prog, rep)
     rule_order(prog, rep)
+    # "every batch gets a fresh key" holds for the COMPILED loss too: a jitted closure must not read the per-batch key
+    # from the enclosing scope (it would keep the key of its first trace)
+    from .lints import rule_jit_captures
+    rule_jit_captures(prog, rep, "C15.jit-key", only=lambda m, fn: m.name.startswith("flowjax.train"), minimum=2,
+                      what=" (a per-batch PRNG key captured this way is the same for every batch)")
     if tier == "thorough":
         from ..audit import audit_generic
         audit_generic(prog, rep, "C15")
@@ -174,7 +179,8 @@ def rule_fit(prog, rep):
         compare(rep, "C15.setup", site, f"fit_to_data:prologue:{n}", got[n], want[n], n)
     # ---- epoch
     data_part, tail = split_epoch_body(loop)
-    got, git = summarise(prog, m, data_part, EPOCH_IN, EPOCH_OUT, NOIN)
+    from .loops import hoisted_callable_defs
+    got, git = summarise(prog, m, hoisted_callable_defs(body[:li], loop.body) + list(data_part), EPOCH_IN, EPOCH_OUT, NOIN)
     want, _ = ref_summary(prog, m, EPOCH_REF, EPOCH_IN, EPOCH_OUT, NOIN)
     for n in EPOCH_OUT:
         compare(rep, "C15.epoch", site, f"fit_to_data:epoch:{n}", got[n], want[n], f"{n} after one epoch")
